@@ -9,6 +9,13 @@ API for other families (C18): `Feat`, `FV`, `Row`, `Table`, `Rules`, `Row.get`, 
 `Lang`, `Pos`, `OV`. -/
 namespace Pyrealb.Decl
 
+/-- decidable equality of results (core has none for `Except`) -/
+instance exceptDecEq {ε α : Type} [DecidableEq ε] [DecidableEq α] : DecidableEq (Except ε α)
+  | .ok a, .ok b => if h : a = b then isTrue (by rw [h]) else isFalse (by intro hh; cases hh; exact h rfl)
+  | .error a, .error b => if h : a = b then isTrue (by rw [h]) else isFalse (by intro hh; cases hh; exact h rfl)
+  | .ok _, .error _ => isFalse (by intro hh; cases hh)
+  | .error _, .ok _ => isFalse (by intro hh; cases hh)
+
 inductive Lang where
   | en | fr
   deriving DecidableEq, Repr, Inhabited
